@@ -156,3 +156,73 @@ Definition outcome_eqb (a b: outcome) : bool :=
   | OExtra x, OExtra y => list_eqb key_eqb x y
   | _, _ => false
   end.
+
+(* ---- class hierarchies: which declaration of a field, and which Config, the class sees ----
+   Dataclass semantics: the fields of a class are collected over the MRO from the base-most class
+   to the class itself; a re-declaration replaces the inherited declaration *in place* (the field
+   keeps the position of its first declaration, the nearest declaration supplies metadata, type
+   annotation and default).  A declaration with init=False stays a dataclass field but is not an
+   __init__ parameter: from_dict does not read it.  `Config` is an ordinary class attribute: the
+   nearest class that defines one supplies all options (no merging). *)
+
+Record cfg := mkCfg { g_aliases : list (string * string); g_allow : bool; g_forbid : bool }.
+
+Definition default_cfg : cfg := mkCfg [] false false.
+
+Record level := mkL {
+  l_decls : list (fld * bool);      (* declarations of this class body, in order; bool = init *)
+  l_cfg   : option cfg              (* the class body defines its own Config *)
+}.
+
+Fixpoint upsert (p: fld * bool) (fs: list (fld * bool)) : list (fld * bool) :=
+  match fs with
+  | [] => [p]
+  | q :: r => if String.eqb (f_name (fst q)) (f_name (fst p)) then p :: r else q :: upsert p r
+  end.
+
+Definition collect (ls: list level) : list (fld * bool) :=
+  fold_left (fun acc l => fold_left (fun a p => upsert p a) (l_decls l) acc) ls [].
+
+(* the init fields, in definition order *)
+Definition effective (ls: list level) : list fld := map fst (filter snd (collect ls)).
+
+Definition nearest_cfg (ls: list level) : cfg :=
+  fold_left (fun acc l => match l_cfg l with Some g => g | None => acc end) ls default_cfg.
+
+(* ls: base-most class first, the class itself last *)
+Definition class_of (ls: list level) (discr: option (option string)) : cls :=
+  let g := nearest_cfg ls in
+  mkC (effective ls) (g_aliases g) (g_allow g) (g_forbid g) discr.
+
+Definition lookup_decl (n: string) (fs: list (fld * bool)) : option (fld * bool) :=
+  find (fun p => String.eqb (f_name (fst p)) n) fs.
+
+(* ---- what can be observed of an outcome: the attribute values of the instance.
+   dfl gives, per init field, the value of its default (irrelevant for fields without default). *)
+Inductive observation :=
+| VInst (vals: list (string * Z))
+| VMissing (f: string)
+| VExtra (ks: list key).
+
+Fixpoint obs_vals (vs: list (string * option (key * Z))) (dfl: list Z) : list (string * Z) :=
+  match vs with
+  | [] => []
+  | (n, r) :: vr =>
+      let dv := match dfl with x :: _ => x | [] => 0%Z end in
+      (n, match r with Some (_, v) => v | None => dv end) :: obs_vals vr (tl dfl)
+  end.
+
+Definition observe (dfl: list Z) (o: outcome) : observation :=
+  match o with
+  | OInst vs => VInst (obs_vals vs dfl)
+  | OMissing f => VMissing f
+  | OExtra ks => VExtra ks
+  end.
+
+Definition observation_eqb (a b: observation) : bool :=
+  match a, b with
+  | VInst x, VInst y => list_eqb (fun p q => String.eqb (fst p) (fst q) && Z.eqb (snd p) (snd q)) x y
+  | VMissing x, VMissing y => String.eqb x y
+  | VExtra x, VExtra y => list_eqb key_eqb x y
+  | _, _ => false
+  end.
